@@ -10,6 +10,15 @@ def main(path):
     body = json.load(open(path))
     prop, clause = body["property"], body["clause"]
     rp = body.get("_replay")
+    if rp is None and body.get("engine") == "scale" and body.get("rerun"):
+        from .engines import scale
+
+        fails = scale.replay(body)
+        print(f"replayed property={prop} original_clause={clause} clauses_failing_now={fails or 'none'}")
+        if fails:
+            print(f"VIOLATION property={prop} replay={path}")
+            return 1
+        return 0
     if rp is None:
         if body.get("engine") in ("hashes", "layout", "sizing"):
             return replay_trace(body)
